@@ -24,7 +24,7 @@ func VerifConstants() map[string]string {
 	put("maxPadding", maxPadding)
 	put("keyLen", keyLen)
 	// constants of other packages that obfs3.go uses in its own arithmetic
-	put("sha256Size", sha256.Size)        // findPeerMagic: hsBuf and the scan window
+	put("sha256Size", sha256.Size)       // findPeerMagic: hsBuf and the scan window
 	put("uniformdhSize", uniformdh.Size) // handshake: public key length
 	return m
 }
